@@ -441,6 +441,27 @@ def run(ctx):
                                   f'outcome produced another outcome attributed to message {[x[1] if x[0] == 4 else x[2] for x in attributed]}',
                                   {'function': 'late_segment_responses', 'history': [list(e) for e in hist]})
                     break
+    # ---- a number that comes round again (short-period generator, restart on a persisted correlator) after a segment that used it was
+    #      answered: the response to the new request matches the new request, and only it
+    for k in (2, 3):
+        for variant in ('answered', 'rejected', 'nack', 'timed_out'):
+            for reused in range(k):
+                hist = [('put', 1 + i, 2 + i, 1, (7, i + 1, k)) for i in range(k)]
+                hist += [('resp', 10 + i, 0x80000004, 2 + i, 0, 501 + i) for i in range(k)]
+                sq = 2 + reused
+                hist.append(('put', 20, sq, 2, (0, 0, 0)))
+                hist.append({'answered': ('resp', 21, 0x80000004, sq, 0, 600), 'rejected': ('resp', 21, 0x80000004, sq, 0x58, 0),
+                             'nack': ('resp', 21, 0x80000000, sq, 3, 0), 'timed_out': ('expire', 21, sq)}[variant])
+                out, _e = asyncio.run(_C01.run_real(hist))
+                obs = _C01.observe(out)
+                ctx.traces += 1
+                ctx.case(('sequence_number_reuse', k, variant, reused), nontrivial=True)
+                last = [x for x in obs[-1] if x[0] == 4 or (x[0] == 1 and x[2] != 0)]
+                logs_seen = [x[1] if x[0] == 4 else x[2] for x in last]
+                if logs_seen != [2]:
+                    ctx.violation(f'request 2 was sent under sequence number {sq}, which segment {reused + 1} of {k} of the fully answered message 1 had used; '
+                                  f'its response ({variant}) was matched with message(s) {logs_seen} instead of [2] (hook calls {obs[-1]})',
+                                  {'function': 'sequence_number_reuse', 'history': [list(e) for e in hist]})
     # ---- whole sessions with connection losses while requests are outstanding
     for j in range(300 if ctx.thorough else 14):
         n_msgs = rng.randint(2, 7)
@@ -474,6 +495,18 @@ def replay(ctx, path):
         obs = run_reconnect(_random.Random(r['seed']), n_msgs=r['n_msgs'], ttl=r['ttl'], drop_after=r['drop_after'], answer_p=r['answer_p'], keepalive=r['keepalive'])
         print('replay: requests on the wire (time, connection, command, number):', [(round(t, 2), c, hex(cmd), sq) for t, c, cmd, sq in obs['requests']][:40])
         msg = reconnect_oracle(obs, r['ttl'])
+    elif r.get('function') in ('sequence_number_reuse', 'late_segment_responses'):
+        from harness import C01 as _C01
+        hist = [tuple(tuple(x) if isinstance(x, list) else x for x in e) for e in r['history']]
+        out, _e = asyncio.run(_C01.run_real(hist))
+        obs = _C01.observe(out)
+        print('replay: hook calls per event:', list(zip([e[:4] for e in hist], obs)))
+        msg = None
+        if r['function'] == 'sequence_number_reuse':
+            last = [x for x in obs[-1] if x[0] == 4 or (x[0] == 1 and x[2] != 0)]
+            seen = [x[1] if x[0] == 4 else x[2] for x in last]
+            if seen != [2]:
+                msg = f'the response to request 2 was matched with message(s) {seen}'
     else:
         msg = None
     print('replay:', msg or 'property holds on this input')
